@@ -19,7 +19,7 @@ class Abort(BaseException):
 
 
 class LThread:
-    __slots__ = ("name", "sem", "done", "exc", "pending", "enabled", "thread", "steps", "daemonic", "started", "info")
+    __slots__ = ("name", "sem", "done", "exc", "pending", "enabled", "thread", "steps", "daemonic", "info")
 
     def __init__(self, name):
         self.name = name
@@ -35,18 +35,24 @@ class LThread:
 
 
 class Sched:
+    """Baton-passing scheduler: the thread that arrives at a VO runs the choice
+    function itself; if it is chosen again it simply continues (no context
+    switch), otherwise it wakes the chosen thread and parks."""
+
     def __init__(self):
         self.threads = {}
         self.order = []
         self.cur = None
         self.main = threading.Semaphore(0)
-        self.trace = []  # (thread, label) in execution order
         self.nsteps = 0
         self.aborting = False
-        self.on_step = None  # callback(thread_name, label) after each step (snapshot hook)
+        self.on_step = None   # callback(thread_name, executed_label) after each step
         self.clock = 0.0
+        self.choose = None    # callable(enabled_names) -> name | None (None = stop the run)
+        self.status = None
+        self.running = False
 
-    # -- called from the controlling (main) thread -------------------------
+    # -- set-up (controlling thread, or a logical thread spawning another) ---
     def spawn(self, name, fn, daemonic=False):
         t = LThread(name)
         t.daemonic = daemonic
@@ -60,9 +66,14 @@ class Sched:
                 pass
             except BaseException as e:  # noqa
                 t.exc = e
+            label = t.pending
             t.done = True
             t.pending = None
-            self.main.release()
+            if self.aborting or not self.running:
+                self.main.release()
+                return
+            self._after_step(t, label)
+            self._dispatch(t)
 
         t.thread = threading.Thread(target=run, daemon=True, name="wv-" + name)
         if name in self.threads:  # a finished thread's name is reused (worker numbers are)
@@ -85,26 +96,60 @@ class Sched:
     def live(self):
         return [n for n in self.order if not self.threads[n].done]
 
-    def step(self, name):
-        """Let `name` perform its pending VO and run to its next one."""
-        t = self.threads[name]
-        label = t.pending
-        self.cur = name
-        t.enabled = None
-        t.steps += 1
+    def run(self, choose):
+        """Run until `choose` returns None or nothing is enabled.  Returns the
+        status: 'done' | 'quiescent' | 'stopped'."""
+        self.choose = choose
+        self.running = True
+        self.status = None
+        self._dispatch(None)
+        if self.status is None:
+            self.main.acquire()
+        self.running = False
+        return self.status
+
+    def _after_step(self, t, label):
         self.nsteps += 1
-        t.sem.release()
-        self.main.acquire()
-        self.cur = None
-        self.trace.append((name, label))
+        t.steps += 1
         if self.on_step is not None:
-            self.on_step(name, label)
-        return label
+            cur = self.cur
+            self.cur = None
+            try:
+                self.on_step(t.name, label)
+            finally:
+                self.cur = cur
+
+    def _dispatch(self, frm):
+        """Pick the next thread.  Called by the thread that just finished a step
+        (frm) or by the controlling thread (frm None).  Returns True if `frm`
+        itself may continue."""
+        en = self.enabled()
+        nxt = None
+        if not en:
+            self.status = "quiescent" if self.live() else "done"
+        else:
+            self.cur = None
+            nxt = self.choose(en)
+            if nxt is None:
+                self.status = "stopped"
+        if nxt is None:
+            self.cur = None
+            if frm is not None:
+                self.main.release()
+            return False
+        t = self.threads[nxt]
+        self.cur = nxt
+        t.enabled = None
+        if frm is not None and frm is t:
+            return True
+        t.sem.release()
+        return False
 
     def shutdown(self):
         """Unwind every parked logical thread."""
         self.aborting = True
-        for n in self.order:
+        self.running = False
+        for n in list(self.order):
             t = self.threads[n]
             guard = 0
             while not t.done and guard < 10000:
@@ -127,10 +172,13 @@ class Sched:
         t = self.threads[n]
         if self.aborting:
             raise Abort()
+        label = t.pending
         t.pending = (kind, obj, _caller())
         t.enabled = enabled
         t.info = info
-        self.main.release()
+        self._after_step(t, label)
+        if self._dispatch(t):
+            return
         t.sem.acquire()
         if self.aborting:
             raise Abort()
